@@ -205,6 +205,7 @@ Rewrite(s, A) ==
                       [] OTHER -> <<x>>
         IN body \o (IF closeIt \/ extra THEN <<New("E", 1)>> ELSE <<>>)
       out == Flat([i \in 1..Len(s) |-> one(i)])
+  \* ("TLF", 2) is the text ("T", 2) with LF instead of CRLF line ends
   IN IF KC \in A /\ out # s
      THEN [i \in 1..Len(out) |-> IF out[i].k = "T" /\ out[i].v = 2 THEN New("TLF", 2) ELSE out[i]]
      ELSE out
